@@ -1,5 +1,5 @@
 SPECIFICATION TSpec
-CONSTANTS Tasks = {1, 2, 3, 4, 5, 6}
-  MaxT = 7
+CONSTANTS Tasks = {1, 2, 3, 4, 5, 6, 7, 8, 9, 10, 11, 12, 13, 14, 15, 16}
+  MaxT = 23
 POSTCONDITION TraceAccepted
 CHECK_DEADLOCK FALSE
